@@ -111,8 +111,9 @@ def run(tier):
     result_of(vh(['fs-req', base, neigh, '']))
     result_of(vh(['fs-req', base, neigh, '1']))
     neigh0 = result_of(vh(['fs-load', base, neigh]))
+    # (while the session is taken down, the application stores data of its own through the same store handle in every request)
     for x in warm:
-        result_of(vh(['fs-req', base, sess, x]))
+        result_of(vh(['fs-req', base, sess, x], env={'VERIF_APPDATA': '1'}))
     neigh1 = result_of(vh(['fs-load', base, neigh]))
     if proj(neigh0) != proj(neigh1) or not os.path.exists(os.path.join(base, '@' + neigh)) or not os.path.exists(os.path.join(base, '@' + sess)):
         out.violation('C12_OthersUntouched: serving session %r changed the stored record of session %r (before: %s, after: %s; files: %s)' % (
